@@ -105,6 +105,10 @@ EXPLANATION += (
     ' Round 16: the functions that join worker pieces place every piece (cursor rules over the merge functions).'
 )
 
+EXPLANATION += (
+    ' Round 17: isinstance(x, set) edges make x a set in the taint engine; recursive calls pass the labels of their arguments through.'
+)
+
 RULE_TEXT = (
     "one obligation per (sink site, set of source labels) finding, per "
     "benign source used, per RNG construction, per merge loop, per worker "
